@@ -22,10 +22,10 @@ RULE = ("one execution = one entry point (executor layer or f_* combinator), one
         "or one fuzzed 3-thread history; distinct & non-trivial = (entry point, completion kind, op pair, placement site | "
         "history signature) in which the future reached a terminal state while probes were attached")
 REQUIRED = ["line_events", "lock_acquisitions"]
-EXEC_ENTRIES = ["map", "flat_map", "retry", "poll", "throttle", "timeout", "cos", "map>retry", "poll>map", "throttle>retry"]
+EXEC_ENTRIES = ["map", "flat_map", "retry", "retrying", "poll", "throttle", "timeout", "cos", "map>retry", "poll>map", "throttle>retry"]
 F_ENTRIES = ["f_map", "f_flat_map", "f_flat_map_inner", "f_zip", "f_sequence", "f_traverse", "f_and", "f_or", "f_apply",
              "f_nocancel", "f_proxy", "f_timeout"]
-KINDS = ["value", "exc", "inner_cancel"]
+KINDS = ["value", "exc", "inner_cancel", "refused_then_inner_cancel"]
 OPS = ["complete", "cancel", "add_cb", "add_cb_nested"]
 
 
@@ -101,6 +101,9 @@ class Entry(object):
             spec = {"base": "me", "layers": []}
             for k, t in enumerate(layers):
                 L = {"t": t, "k": k}
+                if t == "retrying":
+                    # a retry layer that really retries: a failed attempt is re-queued with a back-off
+                    L.update(t="retry", max_attempts=2, sleep=0.25)
                 if t == "retry":
                     L.update(max_attempts=1, sleep=0)
                 if t == "throttle":
@@ -116,6 +119,20 @@ class Entry(object):
             instr.advance(0.01)
 
     def complete(self, kind):
+        if kind == "refused_then_inner_cancel":
+            # the underlying future refuses one cancel request (cancel() through the derived future returns
+            # False), later it is cancelled by someone else
+            targets = [self.me.fut(k) for k in self.me.pending()] if self.me is not None else [s for s in self.ins if not s.done()]
+            for t in targets:
+                t.refuse_cancels = 1
+            try:
+                self.f.cancel()
+            except Exception:
+                pass
+            for t in targets:
+                t.refuse_cancels = 0
+                t.cancel()
+            return
         if self.me is not None:
             for k in self.me.pending():
                 if kind == "value":
@@ -414,7 +431,12 @@ def run_waiters(case, res):
             res.execs += 1
             check_common(res)
             if not f.done():
-                res.count("foreign.future_still_pending")
+                if kind in ("inner_cancel", "refused_then_inner_cancel") and case["entry"] not in ("cos",):
+                    res.violation("waiter-not-released/underlying-work-cancelled",
+                                  "%s: the underlying work was cancelled (%s) but the future never completes: threads blocked in result()/wait() stay blocked"
+                                  % (case["entry"], kind))
+                else:
+                    res.count("foreign.future_still_pending")
                 continue
             for a in ws:
                 instr._RealThread.join(a, 10.0)
